@@ -307,7 +307,16 @@ def _observe(case, run, root, out):
     odb = os.path.join(out, "out.in")
     if os.path.exists(odb):
         os.unlink(odb)
-    r = core.run([exe] + argv, timeout=30, cwd=cwd)
+    try:
+        r = core.run([exe] + argv, timeout=30, cwd=cwd)
+    except core.HarnessError:
+        # the shared build is being relinked by a concurrent check (ETXTBSY / EACCES / ENOENT on the binary):
+        # wait for the builder's lock, then try once more
+        import fcntl
+        with open(os.path.join(core.CACHE, ".lock"), "w") as lk:
+            fcntl.flock(lk, fcntl.LOCK_EX)
+            fcntl.flock(lk, fcntl.LOCK_UN)
+        r = core.run([exe] + argv, timeout=30, cwd=cwd)
     if r.timed_out:
         r = core.run([exe] + argv, timeout=60, cwd=cwd)
     obs = dict(rc=r.rc, how=r.how(), err=r.err, markers=None, snapshot=None, own=None, argv=argv)
